@@ -58,7 +58,7 @@ func (fc *FuncCtx) evalCallInner(call *ast.CallExpr, st *St) []Term {
 		}
 		if call.Ellipsis.IsValid() {
 			// f(xs...) passes the slice itself
-		} else if sig, ok := fn.Type().(*types.Signature); ok && sig.Variadic() {
+		} else if sig, ok := fn.Type().(*types.Signature); ok && sig.Variadic() && inRepo {
 			// pack variadic arguments into a slice
 			np := sig.Params().Len()
 			fixed := args
@@ -80,6 +80,13 @@ func (fc *FuncCtx) evalCallInner(call *ast.CallExpr, st *St) []Term {
 				}
 			}
 			args = append(append([]Term(nil), fixed...), packed)
+		}
+		if sig, ok := fn.Type().(*types.Signature); ok && inRepo {
+			for i := range args {
+				if i < sig.Params().Len() {
+					args[i] = fc.coerce(args[i], sig.Params().At(i).Type())
+				}
+			}
 		}
 		if recv != nil {
 			args = append([]Term{*recv}, args...)
@@ -279,7 +286,7 @@ func (fc *FuncCtx) evalAppend(call *ast.CallExpr, st *St) Term {
 	}
 	var elems []Term
 	for _, a := range call.Args[1:] {
-		elems = append(elems, fc.eval(a, st))
+		elems = append(elems, fc.coerceSort(fc.eval(a, st), es))
 	}
 	cur := s
 	for _, e := range elems {
@@ -320,7 +327,7 @@ func (fc *FuncCtx) evalAppendSeq(call *ast.CallExpr, s Term, st *St) Term {
 	st.assume(T(fmt.Sprintf("(forall ((k Int)) (! (=> (and (<= 0 k) (< k %s)) (= %s %s)) :pattern (%s)))",
 		seqLen(s).S, seqAt(res, T("k", SInt)).S, seqAt(s, T("k", SInt)).S, seqAt(res, T("k", SInt)).S), SBool))
 	for i, a := range call.Args[1:] {
-		st.assume(Eq(seqAt(res, Add(seqLen(s), IntLit(int64(i)))), fc.eval(a, st)))
+		st.assume(Eq(seqAt(res, Add(seqLen(s), IntLit(int64(i)))), fc.coerceSort(fc.eval(a, st), s.Sort.Elem)))
 	}
 	return res
 }
@@ -875,12 +882,15 @@ func (fc *FuncCtx) callByContract(con *Contract, ref *FuncRef, fn *types.Func, a
 			st.bufh = fc.fresh("bufh", st.bufh.Sort)
 		case strings.HasPrefix(m, "glob:"):
 			g := strings.TrimPrefix(m, "glob:")
-			if old, ok := st.glob[g]; ok {
-				st.glob[g] = fc.fresh("glob_"+g, old.Sort)
-			} else {
-				// created lazily when mentioned in the post
-				env.havocGlob[g] = true
+			ty, ok := fc.E.CS.Globals[g]
+			if !ok {
+				fc.unsupported(st, "modifies undeclared global "+g, pos)
+				break
 			}
+			so := fc.sortOfSType(ty, nil)
+			fc.globOf(pre, g, so)
+			fc.globOf(st, g, so)
+			st.glob[g] = fc.fresh("glob_"+g, so)
 		case strings.HasPrefix(m, "trace:"):
 			// callee calls the callback bound to this formal: trace of the actual is havocked
 			f := strings.TrimPrefix(m, "trace:")
